@@ -313,7 +313,7 @@ def _coqc_file(path: Path) -> tuple[Path, int, str]:
     return path, rc, out
 
 
-def run_coq_bools(pid: str, imports: list[str], exprs: list[str], prelude: str = "") -> tuple[list[int], list[str]]:
+def run_coq_bools(pid: str, imports: list[str], exprs: list[str], prelude: str = "", chunk: int = CASE_CHUNK) -> tuple[list[int], list[str]]:
     """Evaluate each expression (type bool) with vm_compute; return indices that are not `true`,
     plus infrastructure error messages (non-empty => the correspondence could not be evaluated)."""
     d = BUILD / "cases" / pid
@@ -321,9 +321,9 @@ def run_coq_bools(pid: str, imports: list[str], exprs: list[str], prelude: str =
         shutil.rmtree(d)
     d.mkdir(parents=True)
     files = []
-    for ci in range(0, len(exprs), CASE_CHUNK):
-        chunk = exprs[ci : ci + CASE_CHUNK]
-        p = d / f"{pid}_{ci // CASE_CHUNK:04d}.v"
+    for ci in range(0, len(exprs), chunk):
+        part = exprs[ci : ci + chunk]
+        p = d / f"{pid}_{ci // chunk:04d}.v"
         with open(p, "w") as fh:
             fh.write("From SE Require Import Base.Num Base.Res.\n")
             for imp in imports:
@@ -331,7 +331,7 @@ def run_coq_bools(pid: str, imports: list[str], exprs: list[str], prelude: str =
             fh.write("Open Scope Q_scope.\n")
             fh.write(prelude + "\n")
             fh.write("Definition cases : list bool := [\n")
-            fh.write(";\n".join(chunk))
+            fh.write(";\n".join(part))
             fh.write("\n].\nDefinition bad := find_bad 0 cases.\nEval vm_compute in bad.\n")
         files.append((ci, p))
     bad: list[int] = []
@@ -437,6 +437,7 @@ class Prop:
     TRUSTED: list[str] = []
     ASSUMPTIONS: list[str] = []
     SEARCH_BUDGET = {"quick": 2000, "thorough": 20000}
+    CHUNK = CASE_CHUNK  # cases per generated .v file (smaller for properties with large literals)
 
     def setup(self, tier: str):
         pass
@@ -557,7 +558,7 @@ def run_check(prop: Prop, tier: str, seed: int) -> int:
                 continue
             exprs.append(e)
             idx_map.append(i)
-        bad, errors = run_coq_bools(pid, prop.IMPORTS, exprs, prop.PRELUDE)
+        bad, errors = run_coq_bools(pid, prop.IMPORTS, exprs, prop.PRELUDE, getattr(prop, "CHUNK", CASE_CHUNK))
         bad_cases = [idx_map[b] for b in bad]
         if errors:
             corr_broken = {"what": "correspondence could not be evaluated", "errors": errors[:3]}
